@@ -35,13 +35,28 @@ class Violation(Exception):
 
 
 class St:
-    __slots__ = ('pc', 'mem', 'ev', 'choices', 'steps', 'seen', 'm', 'prev_pc')
+    __slots__ = ('pc', 'mem', 'evl', 'nev', 'choices', 'steps', 'seen', 'm', 'prev_pc')
+
+    @property
+    def ev(self):
+        out = []
+        c = self.evl
+        while c is not None:
+            out.append(c[1])
+            c = c[0]
+        out.reverse()
+        return tuple(out)
+
+    def emit(self, e):
+        self.evl = (self.evl, e)
+        self.nev += 1
 
     def copy(self):
         s = St()
         s.pc = self.pc
         s.mem = dict(self.mem)
-        s.ev = self.ev
+        s.evl = self.evl
+        s.nev = self.nev
         s.choices = self.choices
         s.steps = self.steps
         s.seen = self.seen
@@ -279,7 +294,8 @@ class VM:
         st = St()
         st.pc = entry
         st.mem = dict(self.state)
-        st.ev = ()
+        st.evl = None
+        st.nev = 0
         st.choices = ()
         st.steps = 0
         st.seen = frozenset()
@@ -334,6 +350,14 @@ class VM:
         mon = self.mon
         ssize = self.sizes['state']
         csize = self.sizes['const']
+        # conditions already decided on this path (z3 terms are hash-consed: equal terms have equal ids)
+        true_ids, false_ids = set(), set()
+        for c0 in conds:
+            if c0 is True or c0 is False:
+                continue
+            true_ids.add(c0.get_id())
+            if z3.is_not(c0):
+                false_ids.add(c0.arg(0).get_id())
         while True:
             self._st, self._c = st, conds
             if st.steps > self.max_steps:
@@ -361,6 +385,12 @@ class VM:
                     c = True
                 else:
                     c = T.cmp(HCOND[op], self.opval(st, A[0]), self.opval(st, A[1]))
+                if c is not True and c is not False:
+                    cid = c.get_id()
+                    if cid in true_ids:
+                        c = True
+                    elif cid in false_ids:
+                        c = False
                 if c is True:
                     can_halt, can_cont = True, False
                 elif c is False:
@@ -368,8 +398,14 @@ class VM:
                 else:
                     can_halt = self.feasible(conds, c)
                     can_cont = self.feasible(conds, z3.Not(c)) if can_halt else True
+                    if not can_halt:
+                        false_ids.add(cid)
+                    elif not can_cont:
+                        true_ids.add(cid)
                 if can_halt:
                     hconds = conds if c is True else conds + [c]
+                    if c is not True and not can_cont:
+                        true_ids.add(cid)
                     if not st.choices:
                         res.append(Path('halt', hconds, st.ev, pc, st.m))
                     else:
@@ -387,7 +423,8 @@ class VM:
                             continue
                 if can_cont:
                     if c is not False:
-                        conds = conds + [T.not_(c)]
+                        conds = conds + [z3.Not(c)]
+                        false_ids.add(cid)
                     st.pc = pc + 1
                     continue
                 return
@@ -401,7 +438,7 @@ class VM:
                 snap = st.copy()
                 snap.pc = tgt
                 if tgt <= pc:
-                    key = (tgt, self.mem_key(st), len(st.ev))
+                    key = (tgt, self.mem_key(st), st.nev)
                     if key in st.seen:
                         res.append(Path('diverge', conds, st.ev, tgt, st.m))
                         return
@@ -411,18 +448,18 @@ class VM:
                 st.pc = pc + 1
                 continue
             if op == 'flag':
-                st.ev = st.ev + (('flag', A[0]),)
+                st.emit(('flag', A[0]))
                 if A[0] in ('win', 'error'):
                     res.append(Path('done', conds, st.ev, A[0], st.m))
                     return
                 st.pc = pc + 1
                 continue
             if op == 'yield':
-                st.ev = st.ev + (('out', T.byte_of(self.opval(st, A[0]))),)
+                st.emit(('out', T.byte_of(self.opval(st, A[0]))))
                 st.pc = pc + 1
                 continue
             if op == 'sleep':
-                st.ev = st.ev + (('sleep', self.opval(st, A[0])),)
+                st.emit(('sleep', self.opval(st, A[0])))
                 st.pc = pc + 1
                 continue
             if op == 'mov':
